@@ -76,7 +76,11 @@ func (o *Obligation) scriptFor(w *World, cover bool, withModel bool, cvc5 bool) 
 }
 
 func runSolver(s solverSpec, file string, timeoutS, seed int) (status, out string, secs float64) {
-	ctx, cancel := context.WithTimeout(context.Background(), time.Duration(timeoutS+5)*time.Second)
+	return runSolverCtx(context.Background(), s, file, timeoutS, seed)
+}
+
+func runSolverCtx(parent context.Context, s solverSpec, file string, timeoutS, seed int) (status, out string, secs float64) {
+	ctx, cancel := context.WithTimeout(parent, time.Duration(timeoutS+5)*time.Second)
 	defer cancel()
 	args := append(s.args(timeoutS, seed), file)
 	cmd := exec.CommandContext(ctx, s.bin, args...)
@@ -95,6 +99,8 @@ func runSolver(s solverSpec, file string, timeoutS, seed int) (status, out strin
 		return "sat", out, secs
 	case first == "unknown":
 		return "unknown", out, secs
+	case parent.Err() != nil:
+		return "cancelled", out, secs
 	case first == "timeout" || ctx.Err() != nil || strings.Contains(out, "interrupted by timeout"):
 		return "timeout", out, secs
 	}
@@ -146,7 +152,54 @@ func dischargeOne(w *World, i int, o *Obligation, opt dischargeOpts) {
 	total := 0.0
 	answered := 0
 	cvcFile := strings.TrimSuffix(file, ".smt2") + ".cvc5.smt2"
+	raced := false
+	if !opt.cross && !isCover {
+		// quick tier: z3 5.1 first on its own for a moment (most goals take milliseconds), then race it against cvc5
+		st, out, secs := runSolver(solvers[0], file, 1, opt.seed)
+		total += secs
+		if st == "unsat" || st == "sat" {
+			o.Status, o.Solver = st, solvers[0].name
+			outputs = append(outputs, fmt.Sprintf("[%s] %s (%.2fs)", solvers[0].name, st, secs))
+			raced = true
+		} else if st == "error" {
+			outputs = append(outputs, fmt.Sprintf("[%s] error", solvers[0].name), trunc(out, 600))
+		} else if err := os.WriteFile(cvcFile, []byte(o.scriptFor(w, isCover, false, true)), 0o644); err == nil {
+			type res struct {
+				idx       int
+				st, out   string
+				secs      float64
+			}
+			ctx, cancel := context.WithCancel(context.Background())
+			ch := make(chan res, 2)
+			go func() { st, out, secs := runSolverCtx(ctx, solvers[0], file, opt.timeoutS, opt.seed); ch <- res{0, st, out, secs} }()
+			go func() { st, out, secs := runSolverCtx(ctx, solvers[1], cvcFile, opt.timeoutS, opt.seed); ch <- res{1, st, out, secs} }()
+			for k := 0; k < 2; k++ {
+				r := <-ch
+				if r.st == "cancelled" {
+					continue
+				}
+				outputs = append(outputs, fmt.Sprintf("[%s] %s (%.2fs)", solvers[r.idx].name, r.st, r.secs))
+				if r.st == "error" {
+					outputs = append(outputs, trunc(r.out, 600))
+				}
+				if total < r.secs {
+					total = r.secs
+				}
+				if (r.st == "unsat" || r.st == "sat") && o.Status != "unsat" && o.Status != "sat" {
+					o.Status, o.Solver = r.st, solvers[r.idx].name
+					cancel()
+				} else if o.Status == "" && (r.st == "unknown" || r.st == "timeout") {
+					o.Status = r.st
+				}
+			}
+			cancel()
+			raced = true
+		}
+	}
 	for si, s := range solvers {
+		if raced && (si < 2 || o.Status == "unsat" || o.Status == "sat") {
+			continue
+		}
 		t := opt.timeoutS
 		if isCover {
 			// a cover only has to fail to be refuted; one solver and a short budget are enough
